@@ -100,6 +100,11 @@ class StrictLeg(object):
                 if got != dl:
                     return Failure("printed line differs:\n in: %r\nout: %r" % (dl, got), sig={"kind": "bytes", "col9": "."})
         line = tm.render_line(rec, d)
+        if not rec["attrs"]:
+            # an empty attribute column stays empty when the file's dialect is supplied (as it is for every line after the first)
+            got = str(feature_from_line(line, dialect=tm.lib_dialect(d), keep_order=True))
+            if got != line:
+                return Failure("printed line differs (dialect supplied):\n in: %r\nout: %r" % (line, got), sig={"kind": "bytes", "dialect": "supplied"})
         f = feature_from_line(line, keep_order=True)
         bad = _compare_parse(f, rec, line)
         if bad:
